@@ -58,7 +58,7 @@ func runOne(ctx context.Context, s solverSpec, file string, timeoutS int) solveR
 }
 
 // solve races the portfolio; the first definite answer wins.
-func solve(query string, dir, name string, timeoutS int, wantModel bool) solveResult {
+func solve(query string, dir, name string, timeoutS int, wantModel bool, quickOnly bool) solveResult {
 	file := filepath.Join(dir, name+".smt2")
 	q := query + "(check-sat)\n"
 	if wantModel {
@@ -73,7 +73,7 @@ func solve(query string, dir, name string, timeoutS int, wantModel bool) solveRe
 	}
 	r := runOne(ctx0, solvers[0], file, short)
 	cancel0()
-	if r.result == "sat" || r.result == "unsat" {
+	if r.result == "sat" || r.result == "unsat" || quickOnly {
 		return r
 	}
 	// stage 2: race all
@@ -112,7 +112,7 @@ func dischargeAll(obls []*Obligation, dir string, timeoutS, workers int) {
 		go func(i int, o *Obligation) {
 			defer wg.Done()
 			defer func() { <-sem }()
-			r := solve(o.Query, dir, fmt.Sprintf("q%04d", i), timeoutS, true)
+			r := solve(o.Query, dir, fmt.Sprintf("q%04d", i), timeoutS, !o.WantSat, o.WantSat)
 			o.Result, o.Solver, o.TimeS = r.result, r.solver, r.secs
 			if r.result == "sat" {
 				o.Model = r.out
